@@ -367,14 +367,14 @@ class Lab:
     def materialize(self, case: dict, order: int) -> Mat:
         self.seq += 1
         k = self.seq
-        udirs = [self.root / f"u{k}a"]
+        udirs = [self.root / f"u{k}z"]  # listed first, sorts last: the search path is the LISTED order (jinja2 FileSystemLoader)
         files: typing.List[typing.Tuple[pathlib.Path, str]] = []
         for n in case.get("user", []):
             files.append((udirs[0] / f"{n}.j2", f"user:{n}"))
         for n in case.get("nested", []):
             files.append((udirs[0] / "sub" / f"{n}.j2", f"user:sub/{n}"))
         if case.get("user2"):
-            udirs.append(self.root / f"u{k}b")
+            udirs.append(self.root / f"u{k}a")
             for n in case["user2"]:
                 files.append((udirs[1] / f"{n}.j2", f"user2:{n}"))
         bname = f"b{k}"
@@ -607,8 +607,10 @@ def eval_a(lab: Lab, rec, case: dict) -> typing.List[Fail]:
                 rendered.add(r)
                 got = identity(lab, gen, cfg, r)
                 if stem in utop:
-                    want_ok = got in (f"user:{stem}", f"user2:{stem}")
-                    want = f"user:{stem}"
+                    # two user directories: the one listed first is searched first (templates_dir documents the jinja2 loader rules)
+                    first_dir = "user" if (not uses_user or stem in set(case.get("user", []))) else "user2"
+                    want_ok = got == f"{first_dir}:{stem}"
+                    want = f"{first_dir}:{stem}"
                     if stem in b:
                         tags.add("A.same_name_both_sets")
                 elif stem in b:
